@@ -130,11 +130,16 @@ struct FormatInt {
 
 static std::string to_int_typed(const std::string &ty, const ST::string &s, int base, bool with_plain)
 {
-    ST::conversion_result r;
+    // ONE conversion_result object is reused by every call of the run (it holds whatever the previous call left in
+    // it); a fresh one is used besides, and the two must agree: the flags may not depend on the object's history
+    static ST::conversion_result r;
+    { static const ST::string seven = ST_LITERAL("7"); (void)seven.to_long(r, 10); }   // r now says ok + full_match
     std::ostringstream o;
 #define SIGNED_CASE(name, T, call)                                                      \
     if (ty == name) {                                                                   \
         T v = s.call(r, base);                                                          \
+        { ST::conversion_result fresh; (void)s.call(fresh, base);                       \
+          if (fresh.ok() != r.ok() || fresh.full_match() != r.full_match()) o << "reused-result-differs "; } \
         o << "v=" << (long long)v << " ok=" << (r.ok() ? 1 : 0) << " full=" << (r.full_match() ? 1 : 0); \
         if (with_plain) o << " plain=" << (long long)s.call(base);                      \
         return o.str();                                                                 \
@@ -142,6 +147,8 @@ static std::string to_int_typed(const std::string &ty, const ST::string &s, int 
 #define UNSIGNED_CASE(name, T, call)                                                    \
     if (ty == name) {                                                                   \
         T v = s.call(r, base);                                                          \
+        { ST::conversion_result fresh; (void)s.call(fresh, base);                       \
+          if (fresh.ok() != r.ok() || fresh.full_match() != r.full_match()) o << "reused-result-differs "; } \
         o << "v=" << (unsigned long long)v << " ok=" << (r.ok() ? 1 : 0) << " full=" << (r.full_match() ? 1 : 0); \
         if (with_plain) o << " plain=" << (unsigned long long)s.call(base);             \
         return o.str();                                                                 \
@@ -158,6 +165,8 @@ static std::string to_int_typed(const std::string &ty, const ST::string &s, int 
 #undef UNSIGNED_CASE
     if (ty == "bool") {
         bool v = s.to_bool(r);
+        { ST::conversion_result fresh; (void)s.to_bool(fresh);
+          if (fresh.ok() != r.ok() || fresh.full_match() != r.full_match()) o << "reused-result-differs "; }
         o << "v=" << (v ? 1 : 0) << " ok=" << (r.ok() ? 1 : 0) << " full=" << (r.full_match() ? 1 : 0);
         if (with_plain) o << " plain=" << (s.to_bool() ? 1 : 0);
         return o.str();
@@ -311,10 +320,18 @@ static std::string dispatch(const std::string &op, const Args &a)
     }
     if (op == "to_double" || op == "to_float") {
         ST::string s = text_arg(a[0]);
-        ST::conversion_result r;
+        static ST::conversion_result r;       // reused across calls (see to_int_typed)
+        { static const ST::string seven = ST_LITERAL("7"); (void)seven.to_long(r, 10); }
         Block<char> in = units<char>(a[0], 1);
         char *end = nullptr;
         std::ostringstream o;
+        {
+            ST::conversion_result fresh;
+            if (op == "to_double") (void)s.to_double(fresh); else (void)s.to_float(fresh);
+            ST::conversion_result again = r;
+            if (op == "to_double") (void)s.to_double(again); else (void)s.to_float(again);
+            if (fresh.ok() != again.ok() || fresh.full_match() != again.full_match()) o << "reused-result-differs ";
+        }
         if (op == "to_double") {
             double v = s.to_double(r);
             double ref = strtod(in.p, &end);
